@@ -167,3 +167,87 @@ def describe_adaptor_result(it, shape, item, fo):
     if isinstance(item, Agg):  # already a DecodedChar: identity
         return None if dc == item else "the decoded character is altered: %r" % (dc,)
     return "unrecognised item %r" % (item,)
+
+
+# ---- after the core: what the entry point does with the core's result ------------------------------------------------
+def core_result_shapes(it, o):
+    """Shapes of the value the core can return at the suspended call: Ok(Meta(v, i)) and one Err per
+    Error variant with symbolic payloads.  Returns [(name, value, payload description)]."""
+    P = it.p
+    f = o.frames[-1]
+    term = P.inst[f.inst]["blocks"][f.bb]["t"]
+    rty = it.place_ty(f, term["dest"])
+    t = P.types[rty]
+    if t.get("name") != "std::result::Result":
+        raise Undecided("core result type is %s" % t["s"])
+    okty = t["variants"][0]["fields"][0]["ty"]
+    errty = t["variants"][1]["fields"][0]["ty"]
+    shapes = []
+    tm = P.types[okty]
+    mfields = tuple(Top(fl["ty"], "core." + fl["name"]) for fl in tm["variants"][0]["fields"])
+    shapes.append(("Ok", Agg(rty, 0, (Agg(okty, 0, mfields),)), mfields))
+    te = P.types[errty]
+    for vi, var in enumerate(te["variants"]):
+        skip = False
+        payload = []
+        for fl in var["fields"]:
+            ft = P.types[fl["ty"]]
+            if ft["k"] == "adt" and ft["adt_kind"] == "enum" and not ft["variants"]:
+                skip = True  # uninhabited payload (Infallible): the variant cannot be constructed
+            payload.append(Top(fl["ty"], "err.%s.%s" % (var["name"], fl["name"])))
+        if skip:
+            continue
+        shapes.append(("Err(%s)" % var["name"], Agg(rty, 1, (Agg(errty, vi, tuple(payload)),)), tuple(payload)))
+    return shapes
+
+
+def run_tail(it, o, shape_value):
+    s2 = o.copy()
+    s2.outcome = o.outcome
+    it.resume_cut(s2, shape_value)
+    return it.run(s2)
+
+
+def describe_tail(it, root, kind, name, payload, outs, parser_ref, o):
+    """None when the entry point turns the core's result `name` into the documented result, else the reason."""
+    P = it.p
+    rets = [x for x in outs if x.outcome and x.outcome[0] == "return"]
+    if len(outs) != 1 or len(rets) != 1:
+        return "after the core returns %s the entry point has %d outcomes (%s) instead of one return" % (name, len(outs), [x.outcome[0] for x in outs][:4])
+    fo = rets[0]
+    rv = fo.outcome[1]
+    if not isinstance(rv, Agg):
+        return "result is not a constructed Result: %r" % (rv,)
+    if name == "Ok":
+        if rv.variant != 0:
+            return "the core's Ok becomes %r" % (rv,)
+        got = rv.fields[0]
+        want_v = payload[0]
+        if root == "root_from_str":
+            return None if got == want_v else "from_str does not return the parsed value itself: %r" % (got,)
+        if not (isinstance(got, Agg) and len(got.fields) == 2 and got.fields[0] == want_v):
+            return "the parsed value is not returned unchanged: %r" % (got,)
+        try:
+            parser = it.read_path(o, parser_ref.base, parser_ref.proj)
+            t = P.types[parser.ty]
+            names = [f["name"] for f in t["variants"][0]["fields"]]
+            cm = dict(zip(names, parser.fields))["code_map"]
+        except Exception as e:  # noqa
+            return "cannot read the parser's code map: %s" % e
+        if got.fields[1] != cm:
+            return "the code map returned is not the parser's: %r vs %r" % (got.fields[1], cm)
+        return None
+    # errors
+    if rv.variant != 1:
+        return "the core's %s becomes Ok: %r" % (name, rv)
+    e = rv.fields[0]
+    if not isinstance(e, Agg):
+        return "error value not constructed: %r" % (e,)
+    te = P.types[e.ty]
+    vname = te["variants"][e.variant]["name"]
+    src = name[4:-1]
+    if src == "Stream" and kind == "bytes":
+        ok = vname == "InvalidUtf8" and len(e.fields) == 1 and e.fields[0] == payload[0]
+        return None if ok else "a decoding error at offset p must become InvalidUtf8(p): got %s%r" % (vname, e.fields)
+    ok = vname == src and tuple(e.fields) == tuple(payload)
+    return None if ok else "the core's error %s%r is reported as %s%r" % (src, payload, vname, e.fields)
